@@ -1,8 +1,8 @@
 SPECIFICATION Spec
 CONSTANTS K = 2
           KO = 0
-          W = 1
-          Ext = FALSE
-          ValSet = "plain"
+          W = 0
+          Ext = TRUE
+          ValSet = "ext"
 INVARIANTS Emit EmitVals
 CHECK_DEADLOCK FALSE
